@@ -11,8 +11,7 @@
 //	d s,.. lo hi              Engine.DeleteSeriesRange
 //	snap                      Engine.WriteSnapshot (all sub-steps)
 //	sb | sw | sr | sc | sx    the same, sub-step by sub-step (goroutine parked at verifPoint hooks)
-//	sd s,.. lo hi             WriteSnapshot with a DeleteSeriesRange run inside the
-//	                          window between Cache.Snapshot and writeSnapshotAndCommit
+//	snapfail                  WriteSnapshot while the Compactor refuses snapshots (fails after Cache.Snapshot)
 //	c kind i j                compaction of the files at positions i..j (engine's own
 //	                          compactionStrategy.Apply); kind = lf|ls|full|opt ; answer ok <#files>
 //	files                     number of TSM files
@@ -138,6 +137,8 @@ type Eng struct {
 	idx   tsdb.Index
 	sfile *tsdb.SeriesFile
 	snap  *snapRun
+	// a WriteSnapshot attempt failed after Cache.Snapshot and has not been retried successfully
+	failedSnap bool
 
 	// the WAL record appended by the previous op (for torn crashes)
 	tearFile          string
@@ -221,6 +222,7 @@ func (g *Eng) open() error {
 	}
 	g.e, g.idx, g.sfile = e, idx, sfile
 	g.snap = nil
+	g.failedSnap = false
 	g.tearFile = ""
 	return nil
 }
@@ -289,23 +291,13 @@ func (g *Eng) Op(t []string) string {
 		}
 		return errStr(g.del(t[1], t[2], t[3]))
 	case "snap":
-		if g.snap != nil {
-			// a second WriteSnapshot while one is parked
-			return errStr(g.e.WriteSnapshot())
+		err := g.e.WriteSnapshot() // (a second WriteSnapshot while one is parked: ErrSnapshotInProgress)
+		if err == nil && g.snap == nil {
+			g.failedSnap = false
 		}
-		return errStr(g.e.WriteSnapshot())
+		return errStr(err)
 	case "sb", "sw", "sr", "sc", "sx":
 		return g.snapStep(t[0])
-	case "sd":
-		if len(t) != 4 {
-			return "bad-op"
-		}
-		if a := g.snapStep("sb"); a != "ok" {
-			return a
-		}
-		d := errStr(g.del(t[1], t[2], t[3]))
-		g.finishSnap()
-		return d
 	case "c":
 		if len(t) != 4 {
 			return "bad-op"
@@ -313,12 +305,8 @@ func (g *Eng) Op(t []string) string {
 		return g.compact(t[1], t[2], t[3])
 	case "files":
 		return strconv.Itoa(len(g.e.FileStore.Files()))
-	case "snapoff": // Compactor.DisableSnapshots: the next WriteSnapshot fails after Cache.Snapshot
-		g.e.Compactor.DisableSnapshots()
-		return "ok"
-	case "snapon":
-		g.e.Compactor.EnableSnapshots()
-		return "ok"
+	case "snapfail":
+		return g.snapFail()
 	case "reopen":
 		if err := g.closeLive(); err != nil {
 			return "err:close:" + clean(err.Error())
@@ -620,6 +608,9 @@ func (g *Eng) waitSnap(target string) string {
 		if s.fin {
 			g.endStepping()
 			g.snap = nil
+			if s.err == nil {
+				g.failedSnap = false
+			}
 			return errStr(s.err)
 		}
 		if s.at != "" && pointOrder[s.at] >= pointOrder[target] {
@@ -657,6 +648,35 @@ func (g *Eng) finishSnap() {
 	}
 	g.endStepping()
 	g.snap = nil
+}
+
+// snapFail runs a whole WriteSnapshot while the Compactor refuses snapshots
+// (Compactor.DisableSnapshots, as Engine.SetCompactionsEnabled(false) does): Cache.Snapshot
+// happens, Compactor.WriteSnapshot returns errSnapshotsDisabled, writeSnapshotAndCommit runs
+// ClearSnapshot(false).  The refusal is only injected when there is something to snapshot
+// (hot store non-empty, or a failed attempt pending): an empty snapshot returns before the
+// compactor is asked.
+func (g *Eng) snapFail() string {
+	if g.snap != nil {
+		return "busy"
+	}
+	inject := g.e.VerifCacheStoreCount() > 0 || g.failedSnap
+	if inject {
+		g.e.Compactor.DisableSnapshots()
+	}
+	err := g.e.WriteSnapshot()
+	if inject {
+		g.e.Compactor.EnableSnapshots()
+	}
+	switch {
+	case err == nil:
+		g.failedSnap = false
+		return "ok"
+	case strings.Contains(err.Error(), "snapshots disabled"):
+		g.failedSnap = true
+		return "err:snapshot-failed"
+	}
+	return errStr(err)
 }
 
 // ---------------------------------------------------------------- compaction
